@@ -6,7 +6,7 @@ from props import _worldfam as F
 
 PID = 'C14'
 GENERATORS = ['consts']
-LEAN_TARGETS = ['EosProofs.Props.C14']
+LEAN_TARGETS = ['EosProofs.Props.C14', 'EosProofs.Props.C14World']
 DRIVERS = ['drv_world']
 TRUSTED = F.WORLD_TRUSTED
 F.PARAM_SETS['switchy'] = dict(nsteps=45, nfits=2, nuni=3, disjoint=0.35, switch_weight=8)
@@ -23,9 +23,9 @@ RULE = ('pairs/triples of generated sources with overlapping and source-specific
 ASSUMPTIONS = ['targets are cleared before a switch (known finding K1 class otherwise)',
                'autocharges and python modifiers not generated']
 CLAUSES = {
-    'after a switch every item reflects only the new source, as if built from scratch': 'proved at machine level (clear_all_legal, setSource_eq_rebuild) + correspondence against the spec under the new source',
+    'after a switch every item reflects only the new source, as if built from scratch': 'proved at machine level (clear_all_legal, setSource_eq_rebuild) and at message level (C14World.switch_source_world: legal history under the old universe, canonical tear-down, legal history under the new universe ending settled => every observation is the new universe\'s from-scratch table; nothing relates the two universes) + correspondence against the spec under the new source',
     'absent type: unloaded, no attributes, no effects': 'proved on the spec (absent_type_unloaded, unloaded_no_attrs, no_source_unloaded) + correspondence',
-    'switching back restores every value': 'proved at machine level (switch_back_restores) + impl oracle',
+    'switching back restores every value': 'proved at machine level (switch_back_restores) and at message level (C14World.switch_back_world) + impl oracle',
     'fit moved to a solar system with another source': 'impl oracle only (remove_fit / readd_fit ops within one solar system; cross-system move explored in the oracle)',
 }
 LEVEL_TEXT = ('Lean: a source switch is a mutation that clears every cache (always legal), so the machine lands in a '
